@@ -31,6 +31,7 @@ type aCol struct {
 type aPart struct {
 	Col  int  `json:"col"`
 	Desc bool `json:"desc"`
+	Attr int  `json:"attr,omitempty"` // dialect part attribute token: MySQL prefix length, PostgreSQL non-default NULLS ordering
 }
 
 type aIdx struct {
@@ -38,6 +39,9 @@ type aIdx struct {
 	Unique bool    `json:"unique"`
 	Parts  []aPart `json:"parts"`
 	Attrs  int     `json:"attrs"`
+	// Perm: build the schema.Index with its Parts slice in reverse order (SeqNo still gives the real
+	// order); not part of the abstract schema, hence not sent to the model.
+	Perm bool `json:"-"`
 }
 
 type aFK struct {
@@ -99,12 +103,12 @@ func cloneTables(ts []aTable) []aTable {
 func c02Base() []aTable {
 	return []aTable{
 		{Name: 1, Cols: []aCol{{1, []int{0, 0, 0, 0}}, {2, []int{2, 1, 0, 0}}, {3, []int{0, 1, 1, 0}}, {4, []int{1, 0, 0, 0}}},
-			PK:     &aIdx{Parts: []aPart{{1, false}}},
-			Idxs:   []aIdx{{Name: ip(1), Unique: true, Parts: []aPart{{2, false}}}, {Name: ip(2), Parts: []aPart{{3, false}, {4, true}}}},
+			PK:     &aIdx{Parts: []aPart{{Col: 1, Desc: false}}},
+			Idxs:   []aIdx{{Name: ip(1), Unique: true, Parts: []aPart{{Col: 2, Desc: false}}}, {Name: ip(2), Parts: []aPart{{Col: 3, Attr: 1}, {Col: 4, Desc: true}}}},
 			Checks: []aCheck{{Name: ip(1), Expr: 1}, {Name: ip(2), Expr: 2}}},
 		{Name: 2, Cols: []aCol{{1, []int{0, 0, 0, 0}}, {2, []int{0, 1, 0, 0}}, {3, []int{0, 1, 0, 0}}},
-			PK:   &aIdx{Parts: []aPart{{1, false}}},
-			Idxs: []aIdx{{Name: ip(3), Parts: []aPart{{2, false}}}},
+			PK:   &aIdx{Parts: []aPart{{Col: 1, Desc: false}}},
+			Idxs: []aIdx{{Name: ip(3), Parts: []aPart{{Col: 2, Desc: false}}}},
 			FKs:  []aFK{{Symbol: 1, Cols: []int{2}, RefTable: 1, RefCols: []int{1}, OnUpdate: 0, OnDelete: 1}, {Symbol: 2, Cols: []int{3}, RefTable: 2, RefCols: []int{1}, OnUpdate: 1, OnDelete: 2}}},
 		{Name: 3, Cols: []aCol{{1, []int{2, 0, 0, 0}}, {2, []int{0, 1, 2, 0}}}},
 	}
@@ -115,6 +119,8 @@ type aEdit struct {
 	Apply  func(ts []aTable) []aTable
 	Expect []string // canonical changes
 	NoSQLite, OnlyNamedDialects bool
+	// BaseDefault: token of the default t3.c1 has in the base of this edit (0: none)
+	BaseDefault int
 }
 
 func tIdx(ts []aTable, name int) int {
@@ -189,21 +195,44 @@ func c02Catalogue() []aEdit {
 			}
 		}
 	}
-	add("add-pk", []string{"3:addPK"}, func(ts []aTable) []aTable { i := tIdx(ts, 3); ts[i].PK = &aIdx{Parts: []aPart{{1, false}}}; return ts })
+	// every ordered pair of distinct string defaults (and the identical pair) on the text column t3.c1
+	for a := 0; a <= len(c02TextDefaults); a++ {
+		for b := 0; b <= len(c02TextDefaults); b++ {
+			a, b := a, b
+			if a == 0 && b == 0 {
+				continue
+			}
+			var exp []string
+			if a != b {
+				exp = []string{"3:modifyColumn 1 [2]"}
+			}
+			e := add(fmt.Sprintf("text-default %d->%d", a, b), exp, func(ts []aTable) []aTable {
+				i := tIdx(ts, 3)
+				for k := range ts[i].Cols {
+					if ts[i].Cols[k].Name == 1 {
+						ts[i].Cols[k].Attrs[2] = b
+					}
+				}
+				return ts
+			})
+			e.BaseDefault = a
+		}
+	}
+	add("add-pk", []string{"3:addPK"}, func(ts []aTable) []aTable { i := tIdx(ts, 3); ts[i].PK = &aIdx{Parts: []aPart{{Col: 1, Desc: false}}}; return ts })
 	add("drop-pk", []string{"2:dropPK"}, func(ts []aTable) []aTable { i := tIdx(ts, 2); ts[i].PK = nil; return ts })
 	add("modify-pk-parts", []string{"2:modifyPK [2]"}, func(ts []aTable) []aTable {
 		i := tIdx(ts, 2)
-		ts[i].PK.Parts = []aPart{{1, false}, {2, false}}
+		ts[i].PK.Parts = []aPart{{Col: 1, Desc: false}, {Col: 2, Desc: false}}
 		return ts
 	})
 	add("add-index", []string{"3:addIndex 7"}, func(ts []aTable) []aTable {
 		i := tIdx(ts, 3)
-		ts[i].Idxs = append(ts[i].Idxs, aIdx{Name: ip(7), Parts: []aPart{{2, false}}})
+		ts[i].Idxs = append(ts[i].Idxs, aIdx{Name: ip(7), Parts: []aPart{{Col: 2, Desc: false}}})
 		return ts
 	})
 	add("add-unique-index", []string{"1:addIndex 7"}, func(ts []aTable) []aTable {
 		i := tIdx(ts, 1)
-		ts[i].Idxs = append([]aIdx{{Name: ip(7), Unique: true, Parts: []aPart{{4, false}, {3, true}}}}, ts[i].Idxs...)
+		ts[i].Idxs = append([]aIdx{{Name: ip(7), Unique: true, Parts: []aPart{{Col: 4, Desc: false}, {Col: 3, Desc: true}}}}, ts[i].Idxs...)
 		return ts
 	})
 	add("drop-index", []string{"1:dropIndex 2"}, func(ts []aTable) []aTable { i := tIdx(ts, 1); ts[i].Idxs = ts[i].Idxs[:1]; return ts })
@@ -219,9 +248,24 @@ func c02Catalogue() []aEdit {
 	})
 	add("modify-index-add-part", []string{"1:modifyIndex 1 [2]"}, func(ts []aTable) []aTable {
 		i := tIdx(ts, 1)
-		ts[i].Idxs[0].Parts = append(ts[i].Idxs[0].Parts, aPart{3, false})
+		ts[i].Idxs[0].Parts = append(ts[i].Idxs[0].Parts, aPart{Col: 3, Desc: false})
 		return ts
 	})
+	add("modify-index-part-attr", []string{"1:modifyIndex 2 [2]"}, func(ts []aTable) []aTable {
+		i := tIdx(ts, 1)
+		ts[i].Idxs[1].Parts[1].Attr = 2
+		return ts
+	}).NoSQLite = true // prefix lengths / NULLS ordering do not exist in SQLite
+	add("move-index-part-attr", []string{"1:modifyIndex 2 [2]"}, func(ts []aTable) []aTable {
+		i := tIdx(ts, 1)
+		ts[i].Idxs[1].Parts[0].Attr, ts[i].Idxs[1].Parts[1].Attr = 0, 1
+		return ts
+	}).NoSQLite = true
+	add("drop-index-part-attr", []string{"1:modifyIndex 2 [2]"}, func(ts []aTable) []aTable {
+		i := tIdx(ts, 1)
+		ts[i].Idxs[1].Parts[0].Attr = 0
+		return ts
+	}).NoSQLite = true
 	add("modify-index-unique+parts", []string{"1:modifyIndex 2 [0 2]"}, func(ts []aTable) []aTable {
 		i := tIdx(ts, 1)
 		ts[i].Idxs[1].Unique = true
@@ -311,6 +355,17 @@ func c02Type(d string, tok int) schema.Type {
 	}
 }
 
+// c02TextDefaults are the string literals the default tokens of text columns stand for: pairwise
+// different strings, several of which differ only by (escaped) quotes or blanks at their edges.
+var c02TextDefaults = []string{"'1'", "'2'", "'3'", "'1'''", "'''1'", "''''", "'1''1'", "'11'", "'1 '", "' 1'", "''", "'''1'''", "'a'", "'b'"}
+
+func c02TextDefault(tok int) string {
+	if tok >= 1 && tok <= len(c02TextDefaults) {
+		return c02TextDefaults[tok-1]
+	}
+	return fmt.Sprintf("'%d'", tok)
+}
+
 var c02Actions = []schema.ReferenceOption{schema.NoAction, schema.Cascade, schema.SetNull, schema.Restrict}
 
 func c02Build(d string, ts []aTable) *schema.Schema {
@@ -329,7 +384,7 @@ func c02Build(d string, ts []aTable) *schema.Schema {
 			if ac.Attrs[2] != 0 {
 				c.SetDefault(&schema.Literal{V: fmt.Sprint(ac.Attrs[2])})
 				if ac.Attrs[0]%3 == 2 {
-					c.SetDefault(&schema.Literal{V: fmt.Sprintf("'%d'", ac.Attrs[2])})
+					c.SetDefault(&schema.Literal{V: c02TextDefault(ac.Attrs[2])})
 				}
 			}
 			if ac.Attrs[3] != 0 && d != "sqlite" {
@@ -345,16 +400,31 @@ func c02Build(d string, ts []aTable) *schema.Schema {
 		}
 		return c
 	}
-	parts := func(t *schema.Table, ix *schema.Index, ps []aPart) {
+	parts := func(t *schema.Table, ix *schema.Index, ps []aPart, perm bool) {
 		for _, p := range ps {
-			ix.AddParts(&schema.IndexPart{C: col(t, p.Col), Desc: p.Desc})
+			ip := &schema.IndexPart{C: col(t, p.Col), Desc: p.Desc}
+			if p.Attr != 0 {
+				switch d {
+				case "mysql":
+					ip.Attrs = append(ip.Attrs, &mysql.SubPart{Len: 10 * p.Attr})
+				case "postgres":
+					// the non-default NULLS ordering of the part's direction
+					ip.Attrs = append(ip.Attrs, &postgres.IndexColumnProperty{NullsFirst: !p.Desc, NullsLast: p.Desc})
+				}
+			}
+			ix.AddParts(ip)
+		}
+		if perm {
+			for i, j := 0, len(ix.Parts)-1; i < j; i, j = i+1, j-1 {
+				ix.Parts[i], ix.Parts[j] = ix.Parts[j], ix.Parts[i]
+			}
 		}
 	}
 	for _, at := range ts {
 		t := tabs[at.Name]
 		if at.PK != nil {
 			pk := schema.NewPrimaryKey()
-			parts(t, pk, at.PK.Parts)
+			parts(t, pk, at.PK.Parts, at.PK.Perm)
 			t.SetPrimaryKey(pk)
 		}
 		for _, ai := range at.Idxs {
@@ -363,7 +433,7 @@ func c02Build(d string, ts []aTable) *schema.Schema {
 				n = fmt.Sprintf("i%d", *ai.Name)
 			}
 			ix := schema.NewIndex(n).SetUnique(ai.Unique)
-			parts(t, ix, ai.Parts)
+			parts(t, ix, ai.Parts, ai.Perm)
 			t.AddIndexes(ix)
 		}
 		for _, af := range at.FKs {
@@ -504,6 +574,13 @@ func shuffleTables(r *hx.Rand, ts []aTable) []aTable {
 		hx.Shuffle(r, ts[i].Idxs)
 		hx.Shuffle(r, ts[i].FKs)
 		hx.Shuffle(r, ts[i].Checks)
+		// the Parts slice of an index need not be in SeqNo order
+		for k := range ts[i].Idxs {
+			ts[i].Idxs[k].Perm = len(ts[i].Idxs[k].Parts) > 1 && r.Chance(1, 2)
+		}
+		if ts[i].PK != nil {
+			ts[i].PK.Perm = len(ts[i].PK.Parts) > 1 && r.Chance(1, 2)
+		}
 	}
 	return ts
 }
@@ -574,6 +651,12 @@ func runC02(e *Env) error {
 			if ed.NoSQLite && d == "sqlite" {
 				continue
 			}
+			base := base
+			if ed.BaseDefault != 0 {
+				base = cloneTables(base)
+				i := tIdx(base, 3)
+				base[i].Cols[0].Attrs[2] = ed.BaseDefault
+			}
 			jobs = append(jobs, job{d, "edit:" + ed.Desc, base, ed.Apply(cloneTables(base)), ed.Expect})
 			jobs = append(jobs, job{d, "edit+reorder:" + ed.Desc, base, shuffleTables(r, ed.Apply(cloneTables(base))), ed.Expect})
 			// the inverse direction of add/drop pairs is covered by the opposite edit
@@ -590,7 +673,7 @@ func runC02(e *Env) error {
 			usedObj := map[string]bool{}
 			for tries := 0; len(descs) < n && tries < 30; tries++ {
 				ed := cat[r.Intn(len(cat))]
-				if ed.NoSQLite && d == "sqlite" {
+				if ed.NoSQLite && d == "sqlite" || ed.BaseDefault != 0 {
 					continue
 				}
 				objs := editTables(ed)
